@@ -992,7 +992,7 @@ class C13(Spec):
                   'letters and digits, spans.render of pre<name>post is pre . F . post with F what the policy makes of the tag: the policies differ '
                   'at the tag and nowhere else, the surrounding text is rendered identically -- the tag is located with the exact regex semantics, '
                   'swapped for a placeholder before the quotes pass and restored after it); C13_tag_document (end to end: the one-line document '
-                  'pre<name>post renders to <p>pre F post</p>, session unchanged). Non-interference for arbitrary surrounding markup is '
+                  'pre<name>post renders to <p>pre F post</p>, session unchanged), C13_tag_in_quote_block (inside a container: the quote block holding that line renders to blockquote around the same paragraph, the policies differing at the tag only). Non-interference for arbitrary surrounding markup is '
                   'not proved; decided by the alignment oracle and full-HTML correspondence at modes 1,2,3 + {0,4,8,12}.')
     rule = ('token-soup sources rendered at modes 1,2,3 + {0,4,8,12} with a fresh sentinel replacement; outputs aligned around sentinel '
             'occurrences modulo newlines; non-trivial = source contains an HTML element')
@@ -1671,7 +1671,7 @@ class C12(Spec):
     level_text = ('Partial. Proved: C12_consume (injection into a non-empty tag clears every pending class, id, css and attribute), '
                   'C12_blank_tag_keeps, C12_bit4 (with bit 4 a Block Attributes line is the identity on the session), C12_bit4_guard, '
                   'C12_nz_no_raw_attrs (in any non-zero mode a document never accumulates raw HTML attributes -- frame theorem instance over the '
-                  'generated guards). C12_class_into_first_tag (for every opening tag of the generated block and list tables and every class text, injection with only a class pending returns the tag with class="..." inserted right after the tag name and clears the pending attributes). C12_class_paragraph_document with C12_parse_class_name and C12_attributes_line_accumulates (end to end: a Block Attributes line with one class name followed by a paragraph line renders to the paragraph with the class in its p tag, and the session afterwards is the session before -- nothing stays pending; the first Block Attributes pattern is matched as a prefix whose end decides how the rest of the line is read, so the greedy execution of the matcher is evaluated on the symbolic name). "First tag of the next block only" over longer block sequences, the other attribute kinds and the one-block scope of options are decided '
+                  'generated guards). C12_class_into_first_tag (for every opening tag of the generated block and list tables and every class text, injection with only a class pending returns the tag with class="..." inserted right after the tag name and clears the pending attributes). C12_class_paragraph_document with C12_parse_class_name and C12_attributes_line_accumulates (end to end: a Block Attributes line with one class name followed by a paragraph line renders to the paragraph with the class in its p tag, and the session afterwards is the session before -- nothing stays pending; the first Block Attributes pattern is matched as a prefix whose end decides how the rest of the line is read, so the greedy execution of the matcher is evaluated on the symbolic name), C12_class_emphasis_paragraph (the same with an emphasis in the paragraph). "First tag of the next block only" over longer block sequences, the other attribute kinds and the one-block scope of options are decided '
                   'by the attribute oracle and correspondence.')
     rule = ('1-3 attribute lines (classes/id/css/attributes/options) . optional comments/blank lines . target block of 8 kinds . further blocks; '
             '16 safe modes; attributes must sit on the first tag of the target and nowhere later; non-trivial = an attribute is emitted')
@@ -1905,7 +1905,8 @@ class C19(Spec):
                   'surrounding text; the defined and the escaped invocation report nothing: C11_simple_invocation, C17_escaped_invocation). '
                   'Never spurious on whole documents: C19_emphasis_silent, C19_tag_silent, C19_header_silent, C19_code_block_silent, '
                   'C19_comment_block_silent, C19_nested_list_silent, C19_define_invoke_silent (the well-formed documents of the end-to-end theorems '
-                  'render successfully with the log unchanged, for all texts, names, lengths, sessions and fuels those theorems quantify over). '
+                  'render successfully with the log unchanged, for all texts, names, lengths, sessions and fuels those theorems quantify over); likewise '
+                  'C19_class_paragraph_silent, C19_quote_paragraph_silent, C19_division_paragraph_silent, C19_indented_silent, C19_code_then_paragraph_silent. '
                   'Completeness and silence on whole documents are decided by the fault-injection oracle and the transcript correspondence.')
     rule = ('well-formed generated documents (zero diagnostics expected) and single-fault mutants (closing delimiter removed, macro name '
             'misspelt, option value corrupted, block option / block name unknown, pattern ill-formed); also rendered without callback; '
